@@ -245,6 +245,52 @@ fn c09_q_permuted_3d() {
     }
 }
 
+/// move_axis on a static-rank layout: the axis `from` ends up at position `to`
+/// and the others keep their relative order (NumPy `moveaxis`), for symbolic
+/// strides. (from, to) is concrete per harness: a symbolic pair makes the
+/// SmallVec remove/insert inside `DynLayout::move_axis` exhaust memory.
+macro_rules! move_axis_3d {
+    ($name:ident, $from:expr, $to:expr) => {
+        #[kani::proof]
+        #[kani::unwind(10)]
+        fn $name() {
+            let strides: [usize; 3] = kani::any();
+            let mut l = NdLayout::<3> { shape: [2, 3, 4], strides };
+            l.move_axis($from, $to);
+            // Reference order: remove `from`, insert it at `to`.
+            let mut order = [0usize; 3];
+            let mut k = 0;
+            let mut src = 0;
+            while k < 3 {
+                if k == $to {
+                    order[k] = $from;
+                } else {
+                    if src == $from {
+                        src += 1;
+                    }
+                    order[k] = src;
+                    src += 1;
+                }
+                k += 1;
+            }
+            kani::cover!(true, "move_axis returned");
+            let shape = [2usize, 3, 4];
+            let mut k = 0;
+            while k < 3 {
+                assert!(l.shape[k] == shape[order[k]], "move_axis produced the wrong shape");
+                assert!(l.strides[k] == strides[order[k]], "move_axis produced the wrong strides");
+                k += 1;
+            }
+        }
+    };
+}
+move_axis_3d!(c09_q_move_axis_2_to_0, 2, 0);
+move_axis_3d!(c09_q_move_axis_0_to_2, 0, 2);
+move_axis_3d!(c09_t_move_axis_1_to_0, 1, 0);
+move_axis_3d!(c09_t_move_axis_2_to_1, 2, 1);
+move_axis_3d!(c09_t_move_axis_0_to_1, 0, 1);
+move_axis_3d!(c09_t_move_axis_1_to_1, 1, 1);
+
 /// `is_valid_permutation` agrees with its definition on 3 symbolic entries.
 #[kani::proof]
 #[kani::unwind(8)]
